@@ -22,6 +22,10 @@
     * a quantizer that is not idempotent (quantized_bits with constant alpha ≠ 1; a data-dependent
       scale that is not frozen) makes the second export move the weights
                                                                 (C14_idempotent_counterexample)
+    * an UNSIGNED auto_po2 quantizer (keep_negative=False) handed a negative weight emits a
+      negative code (the auto_po2 path of quantized_bits never reads keep_negative); the export
+      passes it on, outside the declared range [0, 2^bits-1]
+                                                  (C14_autopo2_unsigned_negative_counterexample)
   Repaired in the fix round (model follows the repaired code; the former counterexamples are
   regression witnesses evaluated at the old failing inputs):
     * QBatchNormalization(scale=False / center=False) and QBidirectional: each weight is paired with
@@ -44,6 +48,12 @@
       `layerQs` reads `Layer.bn` (the batch-norm attributes, present for every instance of the class)
       and never the class name   (C14_weights_quantized_once_bn without a class-name hypothesis,
                                   C14_weights_class_name_irrelevant, C14_bn_subclass_zip_fixed_witness)
+  Strengthening round 2 (seed C14-9; notes/C14.md):
+    * the declared format of an auto_po2 quantizer for EVERY keep_negative: `codeLo / codeHi /
+      inCodeRange / stepOf` of the model (the clause oracle runs the same `inCodeRange`)
+                        (C14_autopo2_code_range, C14_autopo2_rebuild_partial_range,
+                         C14_autopo2_rebuild_scale_one, C14_autopo2_magnitude_bits_unique,
+                         C14_autopo2_unsigned_witness)
 -/
 import QKV.Lemmas.Export
 import QKV.Lemmas.FixedQ
@@ -318,6 +328,157 @@ theorem C14_autopo2_rebuild_counterexample :
     let out := splitWeight (some Q) [1/2]
     out.stored = [7/16] ∧ out.hw = [7/2] ∧ out.scale = [1/16] ∧
       ((1/16 : ℚ) * (7/2) ≠ 7/16) ∧ ((7/2 : ℚ).den ≠ 1) := by
+  decide +kernel
+
+/-! ### auto_po2: the declared format of EVERY `keep_negative` (strengthening round, seed C14-9)
+
+`quantized_bits.__call__` and the export both use `bits - keep_negative` magnitude bits: a signed
+quantizer spends one bit on the sign, an UNSIGNED one (`keep_negative=False / 0 / np.False_`) none.
+The theorems below are stated through `codeLo / codeHi / inCodeRange / stepOf` of the model (the
+clause oracle `judge_autopo2` runs the same `inCodeRange`), for both values of `keep_negative`. -/
+
+/-- the signed range of `C14_autopo2_rebuild_partial` is the declared range for `keep_negative`,
+    and it lies inside the unsigned format's range `[0, 2^bits - 1]` on its non-negative half -/
+theorem C14_autopo2_code_range (bits : ℤ) :
+    codeLo bits true = -(pow2 (bits - 1) - 1) ∧ codeHi bits true = pow2 (bits - 1) - 1 ∧
+      codeLo bits false = 0 ∧ codeHi bits false = pow2 bits - 1 ∧
+      codeHi bits true ≤ codeHi bits false := by
+  refine ⟨rfl, rfl, rfl, rfl, ?_⟩
+  simp only [codeHi, if_true, Bool.false_eq_true, if_false]
+  have := pow2_le_pow2 (show bits - 1 ≤ bits by omega)
+  linarith
+
+/-- PARTIAL, both signednesses: a quantizer output `scale * m_i * z / m` whose integer code `z`
+    lies in the DECLARED range of `(bits, keep_negative)` is exported as `scale * z`; where
+    `scale = 1` the exported weight is the code itself — an integer inside the declared range —,
+    `scale' * hw = stored`, and the exported scale is the step of the declared format
+    `2^integer / 2^(bits - keep_negative)`. -/
+theorem C14_autopo2_rebuild_partial_range (bits integer : ℤ) (kn : Bool) (s : ℚ) (z : ℤ)
+    (hlo : codeLo bits kn ≤ (z : ℚ)) (hhi : (z : ℚ) ≤ codeHi bits kn) :
+    let m := pow2 (ubits bits kn)
+    let mi := pow2 integer
+    let stored := s * mi * (z : ℚ) / m
+    let hw := stored * m / mi
+    let scale' := s * mi / m
+    hw = s * (z : ℚ) ∧ scale' * hw = s * stored ∧
+      (s = 1 → hw = (z : ℚ) ∧ scale' * hw = stored ∧ inCodeRange bits kn hw = true ∧
+        scale' = stepOf bits integer kn) := by
+  intro m mi stored hw scale'
+  have hm : m ≠ 0 := pow2_ne_zero _
+  have hmi : mi ≠ 0 := pow2_ne_zero _
+  have hhw : hw = s * (z : ℚ) := by simp only [hw, stored]; field_simp
+  refine ⟨hhw, ?_, ?_⟩
+  · simp only [hw, stored, scale']; field_simp
+  · intro h1
+    subst h1
+    have hz : hw = (z : ℚ) := by rw [hhw, one_mul]
+    refine ⟨hz, ?_, ?_, ?_⟩
+    · simp only [hw, stored, scale']; field_simp
+    · rw [hz]; simp [inCodeRange, hlo, hhi]
+    · simp only [scale', stepOf, mi, m, one_mul]
+      rw [sub_eq_add_neg, pow2_add, pow2_eq_zpow (-ubits bits kn), zpow_neg, ← pow2_eq_zpow,
+        div_eq_mul_inv]
+
+/-- the split of a whole tensor where `quantizer.scale = 1`, for EVERY `(bits, integer,
+    keep_negative)`: if the quantizer's output is `code * step` of its declared format with codes
+    in the declared range, the dictionary holds exactly the codes (integers in range), every
+    exported scale is the step, nothing is raised, and `scale * hw = stored` elementwise. -/
+theorem C14_autopo2_rebuild_scale_one (Q : Quant) (bits integer : ℤ) (kn : Bool)
+    (hk : Q.kind = .autoPo2 bits integer kn) (w : Tensor) (codes : List ℤ)
+    (hq : Q.q w = codes.map (fun z : ℤ => (z : ℚ) * stepOf bits integer kn))
+    (hs : ∀ s ∈ Q.scaleOf w, s = 1)
+    (hr : ∀ z ∈ codes, codeLo bits kn ≤ (z : ℚ) ∧ (z : ℚ) ≤ codeHi bits kn) :
+    let out := splitWeight (some Q) w
+    out.hw = codes.map (fun z : ℤ => (z : ℚ)) ∧ (∀ h ∈ out.hw, inCodeRange bits kn h = true) ∧
+      (∀ s ∈ out.scale, s = stepOf bits integer kn) ∧ out.err = none ∧
+      out.stored = out.hw.map (fun h => stepOf bits integer kn * h) := by
+  have hm : pow2 (ubits bits kn) ≠ 0 := pow2_ne_zero _
+  have hmi : pow2 integer ≠ 0 := pow2_ne_zero _
+  have hstep : stepOf bits integer kn = pow2 integer / pow2 (ubits bits kn) := by
+    simp only [stepOf]
+    rw [sub_eq_add_neg, pow2_add, pow2_eq_zpow (-ubits bits kn), zpow_neg, ← pow2_eq_zpow,
+      div_eq_mul_inv]
+  have hhw : (splitWeight (some Q) w).hw = codes.map (fun z : ℤ => (z : ℚ)) := by
+    simp only [splitWeight, hk, hq, List.map_map]
+    apply List.map_congr_left
+    intro z _
+    simp only [Function.comp, hstep]
+    field_simp
+  refine ⟨hhw, ?_, ?_, ?_, ?_⟩
+  · intro h hh
+    rw [hhw] at hh
+    obtain ⟨z, hz, rfl⟩ := List.mem_map.1 hh
+    obtain ⟨h1, h2⟩ := hr z hz
+    simp [inCodeRange, h1, h2]
+  · intro s hsm
+    simp only [splitWeight, hk] at hsm
+    obtain ⟨t, ht, rfl⟩ := List.mem_map.1 hsm
+    rw [hs t ht, hstep, one_mul]
+  · simp only [splitWeight, hk]
+    have : (Q.scaleOf w).all isPo2 = true := by
+      rw [List.all_eq_true]
+      intro s hsm
+      rw [hs s hsm]
+      decide +kernel
+    simp [this]
+  · rw [hhw]
+    simp only [splitWeight, hk, hq, List.map_map]
+    apply List.map_congr_left
+    intro z _
+    simp only [Function.comp]
+    ring
+
+/-- the number of magnitude bits is forced: for a non-zero code `z` of a quantizer at scale 1
+    (`stored = 2^integer * z / 2^(bits - keep_negative)`), converting with `2^k` magnitude levels
+    returns the code iff `k = bits - keep_negative`.  (Any other count — e.g. `bits - 1` for an
+    unsigned quantizer — gives `z * 2^(k - ubits)`: half-integers or doubled codes.) -/
+theorem C14_autopo2_magnitude_bits_unique (bits integer k : ℤ) (kn : Bool) (z : ℤ) (hz : z ≠ 0) :
+    let stored := pow2 integer * (z : ℚ) / pow2 (ubits bits kn)
+    stored * pow2 k / pow2 integer = (z : ℚ) ↔ k = ubits bits kn := by
+  intro stored
+  have hm : pow2 (ubits bits kn) ≠ 0 := pow2_ne_zero _
+  have hmi : pow2 integer ≠ 0 := pow2_ne_zero _
+  have hzq : (z : ℚ) ≠ 0 := by exact_mod_cast hz
+  have key : stored * pow2 k / pow2 integer = (z : ℚ) * (pow2 k / pow2 (ubits bits kn)) := by
+    simp only [stored]; field_simp
+  rw [key]
+  constructor
+  · intro h
+    apply pow2_injective
+    have h1 : pow2 k / pow2 (ubits bits kn) = 1 :=
+      mul_left_cancel₀ hzq (h.trans (mul_one _).symm)
+    exact (div_eq_one_iff_eq hm).1 h1
+  · intro h
+    subst h
+    rw [div_self hm, mul_one]
+
+/-- WITNESS (seed C14-9 family): unsigned quantized_bits(4, 0, keep_negative=False,
+    alpha="auto_po2") at scale 1, stored [7/16, 5/16, 0]: the export gives the codes [7, 5, 0]
+    (inside [0, 15]) and scale 1/16; with `bits - 1` magnitude bits the "integers" would be
+    [7/2, 5/2, 0] with scale 1/8. -/
+theorem C14_autopo2_unsigned_witness :
+    let Q : Quant := { kind := .autoPo2 4 0 false, q := fun _ => [7/16, 5/16, 0],
+                       scaleOf := fun _ => [1, 1, 1] }
+    let out := splitWeight (some Q) [7/16, 5/16, 0]
+    out.err = none ∧ out.stored = [7/16, 5/16, 0] ∧ out.hw = [7, 5, 0] ∧
+      out.scale = [1/16, 1/16, 1/16] ∧ out.hw.all (inCodeRange 4 false) = true ∧
+      ([7/16, 5/16, 0].map fun v : ℚ => v * pow2 3 / pow2 0) = [7/2, 5/2, 0] ∧
+      inCodeRange 4 false (7/2) = false := by
+  decide +kernel
+
+/-- COUNTEREXAMPLE (known finding C14-autopo2-unsigned-negative): the auto_po2 path of
+    `quantized_bits.__call__` clips `sign(x) * min(|x|/scale, levels/2)` and never looks at
+    `keep_negative`, so an unsigned quantizer maps a negative weight to a negative code; the export
+    hands it on: quantized_bits(4, 0, keep_negative=False, alpha="auto_po2"), scale 1, stored
+    -3/16 ↦ "unsigned 4-bit integer" -3, outside the declared range [0, 15]
+    (`scale * hw = stored` still holds). -/
+theorem C14_autopo2_unsigned_negative_counterexample :
+    let Q : Quant := { kind := .autoPo2 4 0 false, q := fun _ => [7/16, -3/16],
+                       scaleOf := fun _ => [1, 1] }
+    let out := splitWeight (some Q) [7/16, -3/16]
+    out.err = none ∧ out.hw = [7, -3] ∧ out.scale = [1/16, 1/16] ∧
+      inCodeRange 4 false 7 = true ∧ inCodeRange 4 false (-3) = false ∧
+      ((1/16 : ℚ) * (-3) = -3/16) := by
   decide +kernel
 
 /-- the auto_po2 branch raises exactly when the po2-ness assertion on `quantizer.scale` fails — for
